@@ -443,7 +443,30 @@ type FnSpec struct {
 	Results    []string
 	Bounded    string   // non-empty: a stated bound (this function is a bounded stand-in)
 	Uses       []*SExpr // lemma instantiations: name(args)
+	Witnesses  []Witness
+	ParamKinds []string // lemma parameter kinds (int | map | set | bool)
+	Induct     string   // lemma proved by strong induction on this (natural number) parameter
 	Line       int
+}
+
+// Witness is a named existential witness: the function under verification computes it with Expr at each return;
+// callers get a fresh constant of the given kind.
+type Witness struct {
+	Name string
+	Kind string
+	Expr *SExpr
+}
+
+func kindSort(kind string) Sort {
+	switch kind {
+	case "bool":
+		return SBool
+	case "set":
+		return arrSort(SInt, SBool)
+	case "map", "seq", "array":
+		return arrSort(SInt, SInt)
+	}
+	return SInt
 }
 
 type SpecDef struct {
@@ -464,13 +487,14 @@ type ContractFile struct {
 	Fns    map[string]*FnSpec
 	Order  []string
 	Ghosts map[string]*GhostVar
+	UFuncs map[string]Sort
 	Raw    string
 }
 
 var clauseKeywords = map[string]bool{
-	"pred": true, "func": true, "const": true, "ghost": true, "fn": true, "iface": true, "ext": true, "lemma": true, "lockinv": true,
+	"pred": true, "func": true, "const": true, "ghost": true, "ufunc": true, "fn": true, "iface": true, "ext": true, "lemma": true, "lockinv": true,
 	"requires": true, "ensures": true, "label": true, "assigns": true, "panics": true, "loop": true,
-	"trusted": true, "pure": true, "property": true, "bounded": true, "params": true, "results": true, "use": true,
+	"trusted": true, "pure": true, "property": true, "bounded": true, "params": true, "results": true, "use": true, "witness": true, "induct": true,
 }
 
 func parseContractFile(path, pkg string) (*ContractFile, error) {
@@ -530,6 +554,21 @@ func parseContractFile(path, pkg string) (*ContractFile, error) {
 				return nil, fail(c, fmt.Errorf("ghost var NAME KIND expected"))
 			}
 			cf.Ghosts[f[1]] = &GhostVar{Name: f[1], Kind: f[2]}
+		case "ufunc":
+			// ufunc name(a, b) int|bool : an uninterpreted spec function (e.g. the time of an event value)
+			t := strings.TrimSpace(c.text)
+			i, j := strings.Index(t, "("), strings.LastIndex(t, ")")
+			if i <= 0 || j < i {
+				return nil, fail(c, fmt.Errorf("ufunc name(params) int|bool expected"))
+			}
+			srt := SInt
+			if strings.TrimSpace(t[j+1:]) == "bool" {
+				srt = SBool
+			}
+			if cf.UFuncs == nil {
+				cf.UFuncs = map[string]Sort{}
+			}
+			cf.UFuncs[strings.TrimSpace(t[:i])] = srt
 		case "fn", "iface", "ext", "lemma", "lockinv":
 			key := strings.TrimSpace(c.text)
 			cur = &FnSpec{Key: key, Kind: c.kw, Pkg: pkg, Loops: map[int]*LoopSpec{}, Line: c.line}
@@ -541,7 +580,13 @@ func parseContractFile(path, pkg string) (*ContractFile, error) {
 					for _, p := range ps {
 						p = strings.TrimSpace(p)
 						if p != "" {
-							cur.Params = append(cur.Params, strings.Fields(p)[0])
+							pf := strings.Fields(p)
+							cur.Params = append(cur.Params, pf[0])
+							kind := "int"
+							if len(pf) > 1 {
+								kind = pf[1]
+							}
+							cur.ParamKinds = append(cur.ParamKinds, kind)
 						}
 					}
 				}
@@ -571,15 +616,30 @@ func parseContractFile(path, pkg string) (*ContractFile, error) {
 				cur.Pure = true
 			case "bounded":
 				cur.Bounded = c.text
+			case "witness":
+				// witness NAME int|bool|set|map = expr : a named existential witness of the postconditions
+				f := strings.SplitN(c.text, "=", 2)
+				hd := strings.Fields(f[0])
+				if len(f) != 2 || len(hd) != 2 {
+					return nil, fail(c, fmt.Errorf("witness NAME KIND = expr expected"))
+				}
+				we, err := parseSpecExpr(f[1])
+				if err != nil {
+					return nil, fail(c, err)
+				}
+				cur.Witnesses = append(cur.Witnesses, Witness{Name: hd[0], Kind: hd[1], Expr: we})
 			case "use":
 				e, err := parseSpecExpr(c.text)
 				if err != nil {
 					return nil, fail(c, err)
 				}
-				if e.Kind != "call" {
-					return nil, fail(c, fmt.Errorf("use expects lemma(args)"))
+				// use lemma(args)   or   use forall k :: lemma(args mentioning k)
+				if !(e.Kind == "call" || (e.Kind == "forall" && e.Args[0].Kind == "call")) {
+					return nil, fail(c, fmt.Errorf("use expects lemma(args) or forall v :: lemma(args)"))
 				}
 				cur.Uses = append(cur.Uses, e)
+			case "induct":
+				cur.Induct = strings.TrimSpace(c.text)
 			case "params":
 				cur.Params = strings.Fields(strings.ReplaceAll(c.text, ",", " "))
 			case "results":
